@@ -7,6 +7,7 @@ import (
 	"context"
 	"errors"
 	"fmt"
+	"reflect"
 	"runtime"
 	"sync"
 	"sync/atomic"
@@ -53,11 +54,39 @@ func TestC06Wait(t *testing.T) {
 			// a persistent bus with a persistence timeout: the timeout must not leak into dispatch
 			opts = append(opts, ebu.WithStore(ebu.NewMemoryStore()), ebu.WithPersistenceTimeout(time.Hour))
 		}
+		// every fifth round: some async invocations panic and the bus's panic handler does follow-up
+		// work (a dead-letter publish to async handlers); the invocation, its panic handling and
+		// what that published are all work that Wait has to cover
+		panicky := i%5 == 4
+		var wp *conc.World
+		phT := rng.IntN(nT)
+		depthOfP := &sync.Map{}
+		if panicky {
+			opts = append(opts, ebu.WithPanicHandler(func(ev any, _ reflect.Type, _ any) {
+				w := wp
+				var eid uint64
+				for _, d := range w.Drivers {
+					if id, ok := d.IDOf(ev); ok {
+						eid = id
+						break
+					}
+				}
+				w.Rec(conc.Ev{G: -1, K: "ph.enter", EID: eid})
+				w.Noise()
+				id := w.NextEID()
+				depthOfP.Store(id, 99) // the dead letter's handlers neither nest nor panic
+				w.PublishNested(-2, phT, nil, id, 0, eid)
+				w.Noise()
+				w.Rec(conc.Ev{G: -1, K: "ph.exit", EID: eid})
+			}))
+		}
 		w := conc.NewWorld(drivers, rng.Uint64(), true, opts...)
+		wp = w
 		w.NoisePct = 40 + rng.IntN(50)
 		maxDepth := rng.IntN(4)
 		// static registry: async handlers (some sequential, some filtered), a few sync ones
-		depthOf := sync.Map{} // eid -> depth
+		depthOf := depthOfP // eid -> depth
+		dead := &sync.Map{} // eid -> published with an already cancelled context
 		var slow atomic.Int32
 		pc := map[int]int{}
 		nH := 1 + rng.IntN(4)
@@ -82,9 +111,17 @@ func TestC06Wait(t *testing.T) {
 					w.PublishNested(-2, nestT, nil, id, r.ID, eid)
 				}
 				w.Noise()
+				if panicky && r.Async && d == 0 && eid%3 == 1 {
+					w.Rec(conc.Ev{G: -1, K: "h.panic", Reg: r.ID, T: r.T, EID: eid})
+					w.Rec(conc.Ev{G: -1, K: "h.exit", Reg: r.ID, T: r.T, EID: eid})
+					r.EndBody()
+					panic(fmt.Sprintf("c06: handler #%d panics on event %d", r.ID, eid))
+				}
 			}
 			w.Subscribe(90, r)
 		}
+		deadCtx, deadCancel := context.WithCancel(context.Background())
+		deadCancel()
 		P := 1
 		if run.Thorough() || i%3 == 0 {
 			P = 1 + rng.IntN(3)
@@ -92,10 +129,12 @@ func TestC06Wait(t *testing.T) {
 		var wg sync.WaitGroup
 		start := make(chan struct{})
 		for g := 0; g < P; g++ {
-			plan := make([]int, 2+rng.IntN(8)) // 0 = publish, 1 = Wait, 2 = Shutdown(unbounded context, no store)
+			plan := make([]int, 2+rng.IntN(8)) // 0 = publish, 1 = Wait, 2 = Shutdown(unbounded context, no store), 3 = publish with an already cancelled context
 			for k := range plan {
 				if rng.IntN(4) == 0 {
 					plan[k] = 1 + rng.IntN(2)
+				} else if i%4 >= 2 && rng.IntN(5) == 0 {
+					plan[k] = 3 // owes nothing; must not disturb the deliveries of the live publishes around it
 				}
 			}
 			plan = append(plan, 1)
@@ -116,6 +155,12 @@ func TestC06Wait(t *testing.T) {
 						continue
 					}
 					tt := int(w.NextEID()) % nT
+					if x == 3 {
+						id := w.NextEID()
+						dead.Store(id, true)
+						w.PublishID(g, tt, deadCtx, id)
+						continue
+					}
 					if ctxPub {
 						w.Publish(g, tt, context.Background())
 					} else {
@@ -128,7 +173,7 @@ func TestC06Wait(t *testing.T) {
 		wg.Wait()
 		w.Bus.Wait()
 		// ---- closure oracle
-		sig, nontriv := checkWait(run, w, i, procs[i%len(procs)])
+		sig, nontriv := checkWait(run, w, i, procs[i%len(procs)], dead)
 		run.Case(fmt.Sprintf("p%d d%d P%d %s", procs[i%len(procs)], maxDepth, P, sig), nontriv)
 		run.Count("history_events", int64(len(w.Log)))
 		if i < 1 && run.Shard == 0 {
@@ -152,7 +197,7 @@ func hangDog(run *vk.Run, part string) *watchdog.Dog {
 	return d
 }
 
-func checkWait(run *vk.Run, w *conc.World, caseNo, procs int) (string, bool) {
+func checkWait(run *vk.Run, w *conc.World, caseNo, procs int, dead *sync.Map) (string, bool) {
 	h := conc.Index(w.Log)
 	// owed async deliveries per publish (static registry, live contexts)
 	children := map[uint64][]uint64{} // handled event -> events published by its handlers
@@ -161,7 +206,20 @@ func checkWait(run *vk.Run, w *conc.World, caseNo, procs int) (string, bool) {
 			children[e.Par] = append(children[e.Par], e.EID)
 		}
 	}
+	panics := map[uint64]int{}      // event -> async invocations that panicked
+	phExit := map[uint64][]uint64{} // event -> stamps at which a panic-handler run for it finished
+	for _, e := range w.Log {
+		switch e.K {
+		case "h.panic":
+			panics[e.EID]++
+		case "ph.exit":
+			phExit[e.EID] = append(phExit[e.EID], e.St)
+		}
+	}
 	owed := func(eid uint64) (l [][2]uint64) {
+		if _, isDead := dead.Load(eid); isDead {
+			return nil
+		}
 		p := h.Pubs[eid]
 		for _, r := range w.Regs {
 			if r.T == p.T && r.Async && (!r.Filter || eid%2 == 0) {
@@ -211,6 +269,20 @@ func checkWait(run *vk.Run, w *conc.World, caseNo, procs int) (string, bool) {
 				}
 				if len(ex) == 0 || ex[0] > wt.St {
 					run.Violation("wait:returned-early", fmt.Sprintf("Wait (called at %d, returned at %d) returned before async registration #%d had finished event %d, which is owed to a publish that returned before Wait was called (directly or through a handler's own publish)", wt.Call, wt.St, k[0], eid),
+						map[string]any{"case": caseNo, "gomaxprocs": procs, "history": w.Log})
+					return "viol", true
+				}
+			}
+			// the panic handling of an owed invocation is part of that invocation
+			if np := panics[eid]; np > 0 {
+				done := 0
+				for _, st := range phExit[eid] {
+					if st <= wt.St {
+						done++
+					}
+				}
+				if done < np {
+					run.Violation("wait:returned-before-panic-handler-finished", fmt.Sprintf("Wait (called at %d, returned at %d) returned while the panic handler of an async invocation for event %d (publish returned before the Wait call) had not finished: %d of %d panic-handler runs complete", wt.Call, wt.St, eid, done, np),
 						map[string]any{"case": caseNo, "gomaxprocs": procs, "history": w.Log})
 					return "viol", true
 				}
@@ -486,7 +558,7 @@ func TestC06WaitStorm(t *testing.T) {
 		close(stop)
 		wg.Wait()
 		w.Bus.Wait()
-		sig, nontriv := checkWait(run, w, i, procs[i%len(procs)])
+		sig, nontriv := checkWait(run, w, i, procs[i%len(procs)], &sync.Map{})
 		run.Case(fmt.Sprintf("storm p%d r%d %s", procs[i%len(procs)], rounds/20, sig), nontriv)
 		run.Count("history_events", int64(len(w.Log)))
 		if i == 0 {
